@@ -19,6 +19,9 @@ import (
 type C11Case struct {
 	G     *gr.Grammar `json:"g"`
 	Flags []string    `json:"flags"`
+	// Src, when set, is the grammar text to use instead of G.Source(): a damaged
+	// (ill-formed) variant. Rejections must be deterministic too.
+	Src string `json:"src,omitempty"`
 }
 
 var presentationFlags = []string{"-a", "-zip", "-no_lexer", "-debug_lexer", "-debug_parser", "-v"}
@@ -70,7 +73,21 @@ func genAnyGrammar(t *rapid.T, big bool) *gr.Grammar {
 
 func genC11(t *rapid.T) C11Case {
 	g := genAnyGrammar(t, true)
-	return C11Case{G: g, Flags: genFlags(t, len(g.Prods) > 0)}
+	c := C11Case{G: g, Flags: genFlags(t, len(g.Prods) > 0)}
+	if rapid.IntRange(0, 3).Draw(t, "damaged") == 0 {
+		base := g.TokenList()
+		toks := make([]string, len(base))
+		for i, b := range base {
+			toks[i] = b.Text
+		}
+		var muts []string
+		n := rapid.IntRange(1, 3).Draw(t, "nDamage")
+		for k := 0; k < n; k++ {
+			toks, muts = mutateGrammar(t, toks, muts)
+		}
+		c.Src = strings.Join(toks, " ") + "\n"
+	}
+	return c
 }
 
 func conflictLine(stdout string) string {
@@ -82,6 +99,10 @@ func conflictLine(stdout string) string {
 
 func checkC11(cx *Ctx, c C11Case) *Failure {
 	src := c.G.Source()
+	if c.Src != "" {
+		src = c.Src
+		cx.Ev.Class("damaged_grammar")
+	}
 	cx.Ev.Eval()
 	runs := 4
 	if os.Getenv("VERIF_TIER") == "thorough" {
